@@ -13,6 +13,10 @@ pub struct Finding {
   pub commit: Option<String>,
   /// generator flag that excludes the finding's shape by construction (counted in evidence)
   pub exclude: Option<String>,
+  /// the signature is only tolerated for the finding's own probe, never for generated cases
+  pub probe_only: bool,
+  /// further signatures the same root cause produces (e.g. validator and engine wording of one fault)
+  pub also: Vec<String>,
 }
 
 pub fn load() -> Vec<Finding> {
@@ -32,6 +36,8 @@ pub fn load() -> Vec<Finding> {
       repro: s("repro"),
       commit: s("commit"),
       exclude: s("exclude"),
+      probe_only: f.get("probe_only").and_then(|x| x.as_bool()).unwrap_or(false),
+      also: f.get("also").and_then(|x| x.as_array()).map(|a| a.iter().filter_map(|x| x.as_str().map(|s| s.to_string())).collect()).unwrap_or_default(),
     });
   }
   out
@@ -43,7 +49,11 @@ pub fn open_for(all: &[Finding], property: &str) -> Vec<Finding> {
 
 /// Set of open signatures of a property (suppress nothing for "fixed").
 pub fn open_sigs(all: &[Finding], property: &str) -> std::collections::HashSet<String> {
-  open_for(all, property).into_iter().map(|f| f.signature).collect()
+  open_for(all, property).into_iter().filter(|f| !f.probe_only).flat_map(|f| std::iter::once(f.signature.clone()).chain(f.also.clone())).collect()
+}
+
+pub fn open_sigs_incl_probe_only(all: &[Finding], property: &str) -> std::collections::HashSet<String> {
+  open_for(all, property).into_iter().flat_map(|f| std::iter::once(f.signature.clone()).chain(f.also.clone())).collect()
 }
 
 /// generator exclusion flags requested by open findings of a property
